@@ -54,7 +54,7 @@ def with_state(acs, name, st=None, cs=None):
     return out
 
 
-def gen_case(chk, MX, force_multi=None, force_rho=None):
+def gen_case(chk, MX, force_multi=None, force_rho=None, force_rate_frame=None, all_frames=False):
     rng = chk.rng
     multi = rng.random() < 0.25 if force_multi is None else force_multi
     sd = gen.gen_scene(rng, chk.hist, rho=force_rho or rng.choice(["const", "standard"]), wind=rng.random() < 0.5, solver={"type": "nonlinear"})
@@ -65,12 +65,14 @@ def gen_case(chk, MX, force_multi=None, force_rho=None):
         V, a, b = round(rng.uniform(50, 120), 2), round(rng.uniform(-4, 8), 3), round(rng.uniform(-6, 6), 3)
         st = {"velocity": V, "alpha": a, "beta": b,
               "angular_rates": [round(rng.uniform(-0.1, 0.1), 4), round(rng.uniform(-0.05, 0.05), 4), round(rng.uniform(-0.05, 0.05), 4)],
-              "angular_rate_frame": rng.choice(["body", "stab", "wind"]),
+              "angular_rate_frame": force_rate_frame or rng.choice(["body", "stab", "wind"]),
               "position": [rng.uniform(-100, 100), k * 30.0 + rng.uniform(-5, 5), -rng.uniform(100, 3000)],
               "orientation": [round(rng.uniform(-40, 40), 2), round(rng.uniform(-20, 20), 2), round(rng.uniform(-170, 170), 2)]}
         cs = {"aileron": round(rng.uniform(-4, 4), 2), "elevator": round(rng.uniform(-4, 4), 2), "rudder": round(rng.uniform(-4, 4), 2)}
         acs.append(("ac%d" % k, ac, st, cs))
     frames = dict(body_frame=rng.random() < 0.7, stab_frame=rng.random() < 0.5, wind_frame=rng.random() < 0.7)
+    if all_frames:
+        frames = dict(body_frame=True, stab_frame=True, wind_frame=True)
     if not any(frames.values()):
         frames["wind_frame"] = True
     return sd, acs, frames
@@ -265,7 +267,10 @@ def run(chk):
         rnd = i // len(kinds)
         force_multi = True if (kind == "union" and rnd == 0) or (kind == "state" and rnd == 1) else (False if (kind == "state" and rnd == 0) else None)
         force_rho = "standard" if (kind == "state" and rnd == 0) else None
-        sd, acs, frames = gen_case(chk, MX, force_multi=force_multi, force_rho=force_rho)
+        # damping derivatives: rates given in stability, wind and body axes in turn, every output frame in the first two rounds
+        force_rate_frame = ("stab", "wind", "body")[rnd % 3] if kind == "damping" else None
+        sd, acs, frames = gen_case(chk, MX, force_multi=force_multi, force_rho=force_rho, force_rate_frame=force_rate_frame,
+                                   all_frames=(kind in ("damping", "stability") and rnd < 2))
         name = rng.choice([a[0] for a in acs])
         try:
             if kind == "stability":
